@@ -141,6 +141,16 @@ def proof_step(prop, extra_targets=()):
     return res
 
 
+def coqchk(prop, timeout=2400):
+    """Independent re-check of the compiled property module and everything it
+    depends on (thorough tier only).  Returns (ok, axioms_text)."""
+    rc, out = sh(["coqchk", "-silent", "-o", "-Q", "theories", "Dials", "Dials.Properties." + prop],
+                 cwd=COQ, timeout=timeout)
+    m = re.search(r"\* Axioms:(.*?)\n\s*\n\* Constants", out, re.S)
+    axioms = " ".join(m.group(1).split()) if m else "?"
+    return rc == 0, axioms, out[-1500:]
+
+
 def parse_assumptions(out):
     """Return {'closed': n, 'axioms': [names]} from Print Assumptions output."""
     closed = len(re.findall(r"Closed under the global context", out))
